@@ -48,7 +48,7 @@ try:
     e2 = dict(env, VERIF_REPO=wt)
     for c in checks:
         t0 = time.time()
-        p = subprocess.run(f'./check {c} quick', shell=True, cwd=vc, env=e2, capture_output=True, text=True, timeout=3600)
+        p = subprocess.run(f'timeout -k 5 900 ./check {c} quick', shell=True, cwd=vc, env=e2, capture_output=True, text=True, timeout=3600)
         rc, out = p.returncode, p.stdout + p.stderr
         viol = [l for l in out.split('\n') if l.startswith('VIOLATION')]
         kinds = sorted(set(re.findall(r'kind="([^"]+)"', '\n'.join(viol))))
